@@ -143,7 +143,8 @@ def lookupUrl (tbl : List (String × Bool)) (s : String) : Bool := (tbl.lookup s
 /-- op `c16.run`: {urls, init, ops, obs?} ↦ per step: model state, outcome, read-back,
     `specM` = Spec.holds on the model's result, `specI` = Spec.holds on the observed
     implementation result (if given), `hyp` = hypothesis of `C16_inv_reachable_partial` for the
-    prefix ending here (URL assumption ∧ start state in Inv ∧ no index/slice assignment so far) -/
+    prefix ending here (start state satisfies the spec ∧ no index/slice assignment so far; there is
+    no assumption on `is_url` any more) -/
 def runOp (j : Json) : Except String Json := do
   let tbl ← table j
   let isUrl := lookupUrl tbl
@@ -151,7 +152,6 @@ def runOp (j : Json) : Except String Json := do
   let opsJ ← getArr j "ops"
   let ops ← opsJ.mapM opOf
   let obsJ := (getArr j "obs").toOption.getD []
-  let assumption := tbl.all fun (s, b) => !b || isUrl (spaceToPlus s)
   let blanks := jobj (tbl.map fun (s, _) => (s, jbool (isBlank s)))
   let initOk := Spec.holds isUrl init (readBack isUrl init)
   let rec go (s : MI) (ops : List Op) (obs : List Json) (clean : Bool) (acc : List Json) :
@@ -170,10 +170,10 @@ def runOp (j : Json) : Except String Json := do
           pure (jbool (Spec.holds isUrl mi orb))
       let r := jobj [("mi", miJson s'), ("out", outJson out), ("rb", rbJson rb),
                      ("specM", jbool (Spec.holds isUrl s' rb)), ("specI", specI),
-                     ("hyp", jbool (assumption && initOk && clean'))]
+                     ("hyp", jbool (initOk && clean'))]
       go s' rest obs.tail clean' (r :: acc)
   let steps ← go init ops obsJ true []
-  return jobj [("steps", jarr steps), ("assumption", jbool assumption), ("initOk", jbool initOk),
+  return jobj [("steps", jarr steps), ("initOk", jbool initOk),
                ("initRb", rbJson (readBack isUrl init)), ("blank", blanks)]
 
 def handle (op : String) (j : Json) : Except String Json :=
